@@ -20,9 +20,14 @@ What is extracted (each becomes one `Item` = one Lean `Expr` + one kernel-evalua
              `local_depth(<length>)`, ...)
   attr       `self._<name> = <formula>` in the constructors of ATTR_FILES (SplineGroove: width, usable_width, depth):
              declared dimension of <name>
+             counts (`sum(<truth value> for ...)`, `len(x)`) are variables `#count(...)` / `#len(...)` of dimension 0; slices
+             with count bounds and boolean masks select elements of an array (the array's dimension)
   structure  (no Lean term) module-level numeric constants of every scanned file must have a declared dimension;
              module-level state, `global`/`nonlocal`, and decorators other than hook registrations / PLAIN_DECORATORS
-             on any function of the scanned files are reported (the translated body would not be what a call executes)
+             on any function of the scanned files are reported (the translated body would not be what a call executes) -
+             unless the decorator's DEFINITION, read from the tree, is a pass-through wrapper (`passthrough_wrapper`:
+             checks that can only raise, then `return func(*args, **kwargs)`; no state; every comparison of the wrapper a
+             certified `decision` item)
 
 `Γ` (the variable typing) is generated from the declared table `DIMS` below: the dimension of a variable is the dimension
 declared for the LAST component of its attribute path (so `roll_pass.in_profile.width`, `cs.width` and the hook `width`
@@ -185,6 +190,10 @@ GROOVE_KW_DIMS = {"r1": 1, "r2": 1, "r3": 1, "r4": 1, "flank_angle": 0, "usable_
                   "alpha3": 0, "alpha4": 0, "indent": 1, "even_ground_width": 1, "pad": 1, "rel_pad": 0, "pad_angle": 0}
 
 
+# variables standing for counts: `sum(<boolean> for ...)` -> "#count(...)", `len(x)` -> "#len(...)" (dimension 0)
+COUNT_PREFIX = "#"
+
+
 def leaf_of(path):
     leaf = path.rsplit(".", 1)[-1]
     return re.sub(r"\[[^\]]*\]$", "", leaf)
@@ -192,6 +201,8 @@ def leaf_of(path):
 
 def var_dim(path):
     """declared dimension of a variable (attribute path), or None"""
+    if path.startswith(COUNT_PREFIX):
+        return 0                # a count (`sum` of booleans, `len(...)`): a pure number whatever is counted
     if path in DIMS:
         return DIMS[path]
     parts = path.split(".")
@@ -655,8 +666,11 @@ class _SiteTr(pyexpr.ExprTranslator):
     def tr(self, n):
         if isinstance(n, ast.Call):
             f = n.func
-            if isinstance(f, ast.Name) and f.id == "len":
-                raise Untranslatable("len()")
+            if isinstance(f, ast.Name) and f.id == "len" and len(n.args) == 1 and not n.keywords:
+                return ("var", _count_name("len", n.args[0]))        # a number of elements: dimensionless
+            if isinstance(f, ast.Name) and f.id == "sum" and len(n.args) == 1 and not n.keywords \
+                    and isinstance(n.args[0], (ast.GeneratorExp, ast.ListComp)) and _is_boolean(n.args[0].elt):
+                return ("var", _count_name("count", n.args[0]))      # `sum(<test> for ...)`: how many tests hold
             p = pyexpr.attr_path(f)
             if p and p[-1] in ("all", "any", "asarray", "array", "diff") and p[0] in ("np", "numpy") and len(n.args) == 1:
                 return self.tr(n.args[0])                    # element-wise tests: np.all(a < b)
@@ -675,8 +689,14 @@ class _SiteTr(pyexpr.ExprTranslator):
         if isinstance(n, ast.Subscript) and isinstance(n.slice, ast.Constant) and isinstance(n.slice.value, str):
             return ("var", n.slice.value)                    # `sol["flank_angle"]`: the entry named by the key
         if isinstance(n, ast.Subscript) and pyexpr.attr_path(n) is None and _is_index(n.slice):
-            # `a[0, 1]`, `a[-1, 0]`, `a[:, 1]`: one component / one column of an array - the dimension of the array
-            # (which column is read is not visible to the typing: coordinates of one array share their dimension)
+            # `a[0, 1]`, `a[-1, 0]`, `a[:, 1]`, `a[len(a) // 2:]`: one component / one column / a part of an array - the
+            # dimension of the array (which part is read is not visible to the typing: the coordinates of one array share
+            # their dimension; slice bounds must be counts)
+            return self.tr(n.value)
+        if isinstance(n, ast.Subscript) and isinstance(n.slice, ast.Compare) and len(n.slice.ops) == 1 \
+                and isinstance(n.slice.ops[0], _NUM_OPS):
+            # `y[z <= self.z3]`: the elements selected by a boolean mask - elements of the array; the comparison that
+            # makes the mask is a `decision` item of its own
             return self.tr(n.value)
         p = pyexpr.attr_path(n)
         if p is not None and not (p[0] in ("np", "numpy", "math")):
@@ -696,14 +716,42 @@ class _SiteTr(pyexpr.ExprTranslator):
 
 
 def _is_index(sl):
-    """constant integer (also negative), full slice `:`, or a tuple of those"""
+    """constant integer (also negative), a slice whose bounds are counts (`:`, `n // 2:`), or a tuple of those"""
     if isinstance(sl, ast.Tuple):
         return bool(sl.elts) and all(_is_index(x) for x in sl.elts)
     if isinstance(sl, ast.Slice):
-        return sl.lower is None and sl.upper is None and sl.step is None
+        return all(b is None or _is_count(b) for b in (sl.lower, sl.upper, sl.step))
     if isinstance(sl, ast.UnaryOp) and isinstance(sl.op, ast.USub):
         sl = sl.operand
     return isinstance(sl, ast.Constant) and isinstance(sl.value, int) and not isinstance(sl.value, bool)
+
+
+def _is_count(n):
+    """an index expression made of integer literals and `len(...)` with + - * // (no quantity enters)"""
+    if isinstance(n, ast.Constant):
+        return isinstance(n.value, int) and not isinstance(n.value, bool)
+    if isinstance(n, ast.UnaryOp) and isinstance(n.op, (ast.USub, ast.UAdd)):
+        return _is_count(n.operand)
+    if isinstance(n, ast.BinOp) and isinstance(n.op, (ast.Add, ast.Sub, ast.Mult, ast.FloorDiv)):
+        return _is_count(n.left) and _is_count(n.right)
+    return isinstance(n, ast.Call) and isinstance(n.func, ast.Name) and n.func.id == "len" and len(n.args) == 1 \
+        and not n.keywords
+
+
+def _is_boolean(n):
+    """an expression whose value is a truth value: comparison / membership / identity test, isinstance, and / or / not"""
+    if isinstance(n, ast.Compare):
+        return True
+    if isinstance(n, ast.BoolOp):
+        return all(_is_boolean(v) for v in n.values)
+    if isinstance(n, ast.UnaryOp) and isinstance(n.op, ast.Not):
+        return True
+    return isinstance(n, ast.Call) and isinstance(n.func, ast.Name) and n.func.id in ("isinstance", "bool", "callable")
+
+
+def _count_name(what, node):
+    """name of the variable a count is translated to (no blanks, no `=`: it crosses the line protocol of the driver)"""
+    return f"{COUNT_PREFIX}{what}({re.sub(r'[^A-Za-z0-9_.,()<>!+*/-]+', '_', ast.unparse(node))})"
 
 
 def _isclose_term(a, b, rtol, atol):
@@ -732,7 +780,7 @@ def _functions(tree):
 
 def _own_nodes(fn):
     """nodes of a function body in source order, without descending into nested function/class definitions"""
-    stack = list(reversed(fn.body))
+    stack = [n for n in reversed(fn.body) if not isinstance(n, (ast.FunctionDef, ast.AsyncFunctionDef, ast.ClassDef))]
     while stack:
         n = stack.pop()
         yield n
@@ -799,14 +847,19 @@ def site_items(files, repo=None):
                     except Untranslatable:
                         locals_.pop(n.targets[0].id, None)
                     continue
-                if isinstance(n, ast.Compare) and len(n.ops) == 1 and isinstance(n.ops[0], _NUM_OPS):
-                    key, lean = new("cmp")
-                    try:
-                        a, b = tr.tr(n.left), tr.tr(n.comparators[0])
-                    except Untranslatable as ex:
-                        skipped.append((key, src, f"comparison `{ast.unparse(n)[:80]}`: {ex}"))
-                        continue
-                    items.append(Item(key, lean, "decision", src, ("sub", a, b), None, anchored, ast.unparse(n)[:100]))
+                if isinstance(n, ast.Compare) and any(isinstance(o, _NUM_OPS) for o in n.ops):
+                    # `a < b`; a chain `a < b <= c` is the conjunction of its adjacent pairs (one item each)
+                    operands = [n.left] + list(n.comparators)
+                    for (l, o, r) in zip(operands, n.ops, operands[1:]):
+                        if not isinstance(o, _NUM_OPS):
+                            continue
+                        key, lean = new("cmp")
+                        try:
+                            a, b = tr.tr(l), tr.tr(r)
+                        except Untranslatable as ex:
+                            skipped.append((key, src, f"comparison `{ast.unparse(n)[:80]}`: {ex}"))
+                            continue
+                        items.append(Item(key, lean, "decision", src, ("sub", a, b), None, anchored, ast.unparse(n)[:100]))
                     continue
                 if isinstance(n, ast.Call):
                     p = pyexpr.attr_path(n.func)
@@ -865,12 +918,239 @@ def _groove_class_files(repo=None):
     return out
 
 
-def structure_items(rels, repo=None):
+# ---------------------------------------------------------------------------------------------------------------------
+# decorators: is the decorated function still what a call executes?
+# ---------------------------------------------------------------------------------------------------------------------
+# A decorator that is neither a hook registration nor one of PLAIN_DECORATORS is READ (its definition must live in the
+# scanned tree) and accepted only when the function it returns is a pass-through wrapper:
+#     def wrapper(*args, **kwargs): <checks that can only raise>; return func(*args, **kwargs)
+# i.e. the wrapped function is called exactly once on every path that does not raise, with the very arguments of the call,
+# its result is returned as it is, and the wrapper keeps nothing between calls.  The statements of the wrapper are
+# whitelisted by AST node type (below); its numeric comparisons are ordinary `decision` items of the site scan and must
+# all be certified homogeneous (checked in `collect`).  Everything else - a memo, rounded / quantised / re-ordered
+# arguments, a post-processed result, state in the closure or in the module - is reported with the reason.
+_WRAPPER_BUILTINS = ("isinstance", "sum", "len", "any", "all", "abs", "min", "max", "bool", "callable")   # pure
+_WRAPPER_PREDICATES = ("isfinite", "isnan", "isinf", "isscalar", "isreal", "ndim")      # np.<f>(x) / math.<f>(x): pure tests
+_WRAPPER_METHODS = ("items", "keys", "values", "get")                                   # read access to a mapping
+_WRAPPER_FORBIDDEN = (ast.Global, ast.Nonlocal, ast.AugAssign, ast.Delete, ast.Try, ast.While, ast.With, ast.AsyncWith,
+                      ast.AsyncFor, ast.Yield, ast.YieldFrom, ast.Await, ast.Lambda, ast.NamedExpr, ast.Import,
+                      ast.ImportFrom, ast.FunctionDef, ast.AsyncFunctionDef, ast.ClassDef, ast.AnnAssign)
+
+
+def _literal(n):
+    """a constant, or a tuple / list of constants (what may be bound in a decorator's closure without being state)"""
+    if isinstance(n, ast.Constant):
+        return True
+    return isinstance(n, (ast.Tuple, ast.List)) and all(isinstance(x, ast.Constant) for x in n.elts)
+
+
+def _target_names(t):
+    if isinstance(t, ast.Name):
+        return [t.id]
+    if isinstance(t, (ast.Tuple, ast.List)):
+        out = []
+        for x in t.elts:
+            sub = _target_names(x)
+            if sub is None:
+                return None
+            out += sub
+        return out
+    return None
+
+
+def _docstring_free(body):
+    return [st for st in body if not (isinstance(st, ast.Expr) and isinstance(st.value, ast.Constant)
+                                      and isinstance(st.value.value, str))]
+
+
+def resolve_decorator(rel, dec, repo=None):
+    """-> (file of the definition relative to pyroll/core, FunctionDef, is a factory call) or a reason (str)"""
+    factory = isinstance(dec, ast.Call)
+    name = dec.func if factory else dec
+    if not isinstance(name, ast.Name):
+        return f"`{ast.unparse(name)}` is not a plain name: its definition is not looked up"
+    root = os.path.join(repo or REPO, CORE)
+    tree = ast.parse(open(os.path.join(root, rel)).read())
+    for n in tree.body:
+        if isinstance(n, ast.FunctionDef) and n.name == name.id:
+            return rel, n, factory
+    for n in tree.body:
+        if not isinstance(n, ast.ImportFrom):
+            continue
+        for a in n.names:
+            if (a.asname or a.name) != name.id:
+                continue
+            if n.level:
+                base = os.path.dirname(rel)
+                for _ in range(n.level - 1):
+                    base = os.path.dirname(base)
+                mod = os.path.join(base, *(n.module.split(".") if n.module else []))
+            elif n.module and n.module.startswith("pyroll.core"):
+                mod = os.path.join(*n.module.split(".")[2:]) if n.module != "pyroll.core" else ""
+            else:
+                return f"`{name.id}` is imported from `{n.module}`, outside the tree the translator reads"
+            for cand in (mod + ".py", os.path.join(mod, "__init__.py")):
+                path = os.path.join(root, cand)
+                if os.path.isfile(path):
+                    for d in ast.parse(open(path).read()).body:
+                        if isinstance(d, ast.FunctionDef) and d.name == a.name:
+                            return cand.replace(os.sep, "/"), d, factory
+            return f"no definition of `{a.name}` found in `{n.module or '.'}`"
+    return f"no definition of `{name.id}` found in {rel}"
+
+
+def passthrough_wrapper(defn, dec, factory, module_tree):
+    """Does the decorator defined by `defn` (applied as `dec`) return a pass-through wrapper?
+    -> (qualified name of the wrapper relative to its module, FunctionDef of the wrapper, [reasons why not])"""
+    why = []
+    qual = defn.name
+    closure = set()                 # names bound outside the wrapper that it may read (all immutable)
+    outer = defn
+    if factory:
+        # def factory(<literal-default parameters>): def decorator(func): ...; return decorator
+        a = defn.args
+        if a.vararg or a.kwarg:
+            why.append("the decorator factory takes *args / **kwargs")
+        for d in list(a.defaults) + [d for d in a.kw_defaults if d is not None]:
+            if not _literal(d):
+                why.append(f"default `{ast.unparse(d)[:40]}` of the decorator factory is not a literal (shared state)")
+        for x in list(dec.args) + [k.value for k in dec.keywords]:
+            if not _literal(x):
+                why.append(f"decorator argument `{ast.unparse(x)[:40]}` is not a literal")
+        closure |= {x.arg for x in a.posonlyargs + a.args + a.kwonlyargs}
+        body = _docstring_free(defn.body)
+        if not (len(body) == 2 and isinstance(body[0], ast.FunctionDef) and isinstance(body[1], ast.Return)
+                and isinstance(body[1].value, ast.Name) and body[1].value.id == body[0].name
+                and not body[0].decorator_list):
+            return qual, None, why + ["the decorator factory does more than define and return one decorator"]
+        outer = body[0]
+        qual += "." + outer.name
+    a = outer.args
+    if not (len(a.args) == 1 and not (a.posonlyargs or a.kwonlyargs or a.vararg or a.kwarg or a.defaults)):
+        return qual, None, why + ["the decorator does not take exactly the decorated function"]
+    func = a.args[0].arg
+    body = _docstring_free(outer.body)
+    wrappers = [st for st in body if isinstance(st, ast.FunctionDef)]
+    if not (len(wrappers) == 1 and isinstance(body[-1], ast.Return) and isinstance(body[-1].value, ast.Name)
+            and body[-1].value.id == wrappers[0].name):
+        return qual, None, why + ["the decorator does not return one wrapper function defined in its body"]
+    w = wrappers[0]
+    qual += "." + w.name
+    for st in body[:-1]:
+        if st is w:
+            continue
+        # the only thing the closure may hold besides the function: its (immutable) signature
+        if isinstance(st, ast.Assign) and len(st.targets) == 1 and isinstance(st.targets[0], ast.Name) \
+                and ast.dump(st.value) == ast.dump(ast.parse(f"inspect.signature({func})", mode="eval").body):
+            closure.add(st.targets[0].id)
+            continue
+        why.append(f"the decorator keeps `{ast.unparse(st)[:60]}` in its closure (state shared by all calls)")
+    for d in w.decorator_list:
+        if ast.unparse(d) not in (f"wraps({func})", f"functools.wraps({func})"):
+            why.append(f"the wrapper is itself decorated with `@{ast.unparse(d)[:40]}`")
+    wa = w.args
+    if not (wa.vararg and wa.kwarg and not (wa.posonlyargs or wa.args or wa.kwonlyargs or wa.defaults or wa.kw_defaults)):
+        return qual, w, why + ["the wrapper's parameters are not exactly (*args, **kwargs)"]
+    va, kw = wa.vararg.arg, wa.kwarg.arg
+    wbody = _docstring_free(w.body)
+    passcall = ast.dump(ast.parse(f"{func}(*{va}, **{kw})", mode="eval").body)
+    if not (wbody and isinstance(wbody[-1], ast.Return) and wbody[-1].value is not None
+            and ast.dump(wbody[-1].value) == passcall):
+        why.append(f"the wrapper does not end with `return {func}(*{va}, **{kw})` (arguments or result are not passed "
+                   f"through unchanged)")
+    checks = wbody[:-1] if wbody else []
+    imported = set()
+    constants = set()
+    for n in module_tree.body:
+        if isinstance(n, (ast.Import, ast.ImportFrom)):
+            imported |= {(x.asname or x.name).split(".")[0] for x in n.names}
+        if isinstance(n, ast.Assign) and len(n.targets) == 1 and isinstance(n.targets[0], ast.Name) \
+                and isinstance(n.value, (ast.Constant, ast.BinOp, ast.UnaryOp)):
+            constants.add(n.targets[0].id)      # module-level numbers: the site scan reads them as the number they are
+    locals_ = set()
+    raising = set()                 # nodes inside `raise ...`: the path ends there
+    for st in checks:
+        for n in ast.walk(st):
+            if isinstance(n, ast.Raise):
+                raising |= {id(x) for x in ast.walk(n)}
+    for st in checks:
+        for n in ast.walk(st):
+            if isinstance(n, _WRAPPER_FORBIDDEN) or isinstance(n, ast.Return):
+                why.append(f"the wrapper contains `{ast.unparse(n)[:50]}` ({type(n).__name__})")
+            tgts = []
+            if isinstance(n, ast.Assign):
+                tgts = n.targets
+            elif isinstance(n, (ast.For, ast.comprehension)):
+                tgts = [n.target]
+            for t in tgts:
+                names = _target_names(t)
+                if names is None:
+                    why.append(f"the wrapper assigns to `{ast.unparse(t)[:40]}` (not a local name)")
+                elif any(x in (va, kw, func) or x in closure for x in names):
+                    why.append(f"the wrapper rebinds `{ast.unparse(t)[:40]}`")
+                else:
+                    locals_ |= set(names)
+    for st in checks:
+        for n in ast.walk(st):
+            if id(n) in raising:
+                continue
+            if isinstance(n, ast.Call):
+                f = n.func
+                starred = [x for x in n.args if isinstance(x, ast.Starred)] + [k for k in n.keywords if k.arg is None]
+                bind = isinstance(f, ast.Attribute) and f.attr in ("bind", "bind_partial") \
+                    and isinstance(f.value, ast.Name) and f.value.id in closure
+                if bind and ast.dump(n) == ast.dump(ast.parse(f"{f.value.id}.{f.attr}(*{va}, **{kw})", mode="eval").body):
+                    continue
+                ok = (isinstance(f, ast.Name) and f.id in _WRAPPER_BUILTINS) \
+                    or (isinstance(f, ast.Attribute) and f.attr in _WRAPPER_METHODS) \
+                    or (isinstance(f, ast.Attribute) and isinstance(f.value, ast.Name)
+                        and f.value.id in ("np", "numpy", "math") and f.attr in _WRAPPER_PREDICATES)
+                if not ok or starred:
+                    why.append(f"the wrapper calls `{ast.unparse(n)[:50]}`")
+            elif isinstance(n, ast.Name) and isinstance(n.ctx, ast.Load):
+                if n.id in (va, kw):
+                    continue        # checked below: only as *args / **kwargs of the two accepted calls
+                if not (n.id in locals_ or n.id in closure or n.id in imported or n.id in constants
+                        or n.id in _WRAPPER_BUILTINS or n.id in ("True", "False", "None")):
+                    why.append(f"the wrapper reads `{n.id}`, which is neither a local, a parameter of the decorator, an "
+                               f"import nor a module-level number")
+    # *args / **kwargs are never looked into, changed or handed to anything but signature.bind and the function itself
+    uses = sum(1 for n in ast.walk(w) if isinstance(n, ast.Name) and n.id in (va, kw))
+    allowed = 0
+    for n in ast.walk(w):
+        if isinstance(n, ast.Call) and ast.dump(n) == passcall:
+            allowed += 2
+        elif isinstance(n, ast.Call) and isinstance(n.func, ast.Attribute) and n.func.attr in ("bind", "bind_partial") \
+                and isinstance(n.func.value, ast.Name) and n.func.value.id in closure \
+                and ast.dump(n) == ast.dump(ast.parse(f"{n.func.value.id}.{n.func.attr}(*{va}, **{kw})", mode="eval").body):
+            allowed += 2
+    if uses != allowed:
+        why.append(f"the wrapper uses `{va}` / `{kw}` other than as `*{va}, **{kw}` of the wrapped call")
+    calls = sum(1 for n in ast.walk(outer) if isinstance(n, ast.Call) and isinstance(n.func, ast.Name) and n.func.id == func)
+    if calls != 1:
+        why.append(f"the wrapped function is called {calls} times in the decorator")
+    return qual, w, why
+
+
+def wrapper_comparisons(rel, qual, w):
+    """keys the site scan gives to the numeric comparisons of the wrapper (same order and numbering as `site_items`)"""
+    keys, k = [], 0
+    for n in _own_nodes(w):
+        if isinstance(n, ast.Compare):
+            for o in n.ops:
+                if isinstance(o, _NUM_OPS):
+                    k += 1
+                    keys.append(f"{rel}:{qual}:cmp#{k}")
+    return keys
+
+
+def structure_items(rels, repo=None, decorators=None):
     """-> (constants [(rel, name, value tuple, src, declared dimension | None)], findings [(key, src, text)]).
     What the translation silently assumes about the files it reads: a call of a translated function executes the
     translated body (no wrapping decorator), functions keep nothing between calls (no module-level containers, no
     `global` / `nonlocal`), and every module-level number is a declared quantity."""
     consts, findings = [], []
+    decorators = [] if decorators is None else decorators      # out: (rel, function, decorator node, src, text)
     for rel in rels:
         path = os.path.join(repo or REPO, CORE, rel)
         tree = ast.parse(open(path).read())
@@ -920,8 +1200,7 @@ def structure_items(rels, repo=None):
                 if txt in PLAIN_DECORATORS or txt.endswith(".setter") or txt.endswith(".getter") or txt.endswith(".deleter") \
                         or txt.startswith("wraps(") or txt.startswith("functools.wraps("):
                     continue
-                findings.append((f"{rel}:{qual}:decorator:{txt[:40]}", src,
-                                 f"`{qual}` is wrapped by the decorator `@{txt[:60]}`: a call does not execute the translated body alone"))
+                decorators.append((rel, qual, dec, src, txt))
             for n in _own_nodes(fn):
                 if isinstance(n, (ast.Global, ast.Nonlocal)):
                     findings.append((f"{rel}:{qual}:{type(n).__name__.lower()}", src,
@@ -961,7 +1240,35 @@ def collect(repo=None):
             raise Untranslatable(f"duplicate Lean name {it.lean}")
         names[it.lean] = it
     rels = sorted({r for _, r, _ in files})
-    consts, structure = structure_items(rels, repo)
+    decorators = []
+    consts, structure = structure_items(rels, repo, decorators)
+    certified = {it.key for it in kept if it.ok}
+    accepted_decorators = []
+    for (rel, qual, dec, src, txt) in decorators:
+        why, where = [], None
+        res = resolve_decorator(rel, dec, repo)
+        if isinstance(res, str):
+            why.append(res)
+        else:
+            drel, defn, factory = res
+            if drel not in rels:
+                why.append(f"its definition is in {drel}, a file whose decisions are not scanned")
+            else:
+                dtree = ast.parse(open(os.path.join(repo or REPO, CORE, drel)).read())
+                wqual, w, why = passthrough_wrapper(defn, dec, factory, dtree)
+                where = f"{drel}:{wqual}"
+                if w is not None:
+                    for key in wrapper_comparisons(drel, wqual, w):
+                        if key not in certified:
+                            why.append(f"its comparison {key} is not translated and certified homogeneous")
+        if why:
+            structure.append((f"{rel}:{qual}:decorator:{txt[:40]}", src,
+                              f"`{qual}` is wrapped by the decorator `@{txt[:60]}`: a call does not execute the translated "
+                              f"body alone (" + "; ".join(dict.fromkeys(why)) + ")"))
+        else:
+            accepted_decorators.append({"function": f"{rel}:{qual}", "decorator": txt[:120], "wrapper": where,
+                                        "why": "pass-through wrapper: checks that can only raise, then "
+                                               "`return func(*args, **kwargs)`; every comparison certified"})
     # every other file of the core: only the module-level numbers (a tolerance in fixed units can sit anywhere)
     others = []
     for dp, _, fs in sorted(os.walk(os.path.join(repo or REPO, CORE))):
@@ -974,7 +1281,7 @@ def collect(repo=None):
     structure += [x for x in s2 if ":const:" in x[0]]
     return {"items": kept, "hook_opaque": h_opaque, "nonnumeric_hooks": nonnumeric, "impls": impls, "gaps": g_gaps + s_gaps, "chain": chain,
             "opaque_brackets": opaque_brackets, "skipped": d_skipped, "undeclared": undeclared,
-            "constants": consts, "structure": structure}
+            "constants": consts, "structure": structure, "decorators_accepted": accepted_decorators}
 
 
 def gamma_entries(items):
